@@ -259,6 +259,7 @@ impl EventGen for GroupElement {
         // do any required transformations on the <g> itself here.
         let mut new_el = self.0.clone();
         new_el.eval_attributes(context)?;
+        context.check_scope_vars(&self.0, &new_el)?;
 
         // push variables onto the stack. Note these are the *evaluated* attributes:
         // pushing the raw attributes would have any expression in them evaluated
